@@ -246,11 +246,29 @@ std::string pr_token(token const &t)
     return o.str();
 }
 
+// the same channel seen through a write() that reports success, as channels
+// written against socket-like interfaces do; the library has no use for the value
+struct reporting_channel
+{
+    cap_channel &inner;
+    void async_read(std::function<void(bytes)> const &cb) { inner.async_read(cb); }
+    bool write(bytes data) { inner.write(data); return true; }
+    [[nodiscard]] bool is_alive() const { return inner.is_alive(); }
+    void close() { inner.close(); }
+};
+
 struct term_obj
 {
-    explicit term_obj(behaviour const &b) : term(chan, b) {}
+    term_obj(behaviour const &b, bool reporting)
+      : rep{chan},
+        holder(reporting ? std::make_unique<terminal>(rep, b) : std::make_unique<terminal>(chan, b)),
+        term(*holder)
+    {
+    }
     cap_channel chan;
-    terminal term;
+    reporting_channel rep;
+    std::unique_ptr<terminal> holder;
+    terminal &term;
     std::vector<std::string> pending_cb;  // lines produced by read callbacks
     std::function<void(tokens)> on_read;
 };
@@ -390,7 +408,9 @@ void do_term(std::ostream &out, world &w, toks &t)
     std::string const op = t.str();
     if (op == "new")
     {
-        w.terms[id] = std::make_unique<term_obj>(mk_beh(t.num()));
+        // bit 12 of the mask is not a behaviour flag: it selects the kind of channel
+        long const mask = t.num();
+        w.terms[id] = std::make_unique<term_obj>(mk_beh(mask), ((mask >> 12) & 1) != 0);
         pr_state(out, *w.terms[id]);
         return;
     }
